@@ -591,11 +591,11 @@ static void trace_exec(const char *path, char *const argv[])
   busy = 0;
 }
 int execve(const char *path, char *const argv[], char *const envp[])
-{ REAL(execve); ENTER(); trace_exec(path, argv); if (gate_fd >= 0) { r_close(gate_fd); gate_fd = -1; } return real_execve(path, argv, envp); }
+{ REAL(execve); ENTER(); trace_exec(path, argv); return real_execve(path, argv, envp); }
 int execv(const char *path, char *const argv[])
-{ REAL(execv); ENTER(); trace_exec(path, argv); if (gate_fd >= 0) { r_close(gate_fd); gate_fd = -1; } return real_execv(path, argv); }
+{ REAL(execv); ENTER(); trace_exec(path, argv); return real_execv(path, argv); }
 int execvp(const char *file, char *const argv[])
-{ REAL(execvp); ENTER(); trace_exec(file, argv); if (gate_fd >= 0) { r_close(gate_fd); gate_fd = -1; } return real_execvp(file, argv); }
+{ REAL(execvp); ENTER(); trace_exec(file, argv); return real_execvp(file, argv); }
 
 static void trace_exit(int code)
 {
